@@ -48,12 +48,16 @@ def run(prog, tier) -> Result:
         for lbl, mk in other_values() + [("Unit", lambda c: c.unit("uo", "T"))]:
             cr.run("R03.1", fi, f"{name} {lbl}", qty_and_value("ref", mk), judge_notimpl, flag_kinds=(),
                    site=f"Quantity.{name}")
+            # money reaches the operator through its own class (an override there is what runs)
+            cr.run("R03.1", fi, f"{name} {lbl} [money]", qty_and_value("money", mk), judge_notimpl, flag_kinds=(),
+                   site=f"Quantity.{name}")
     fi = Q("__rsub__")
     for fl2 in (None, "money"):
         cr.run("R03.1", fi, f"__rsub__ quantity [{fl2 or 'any'}]", two_qty_other_type("ref", fl2),
                lambda o: expect_raise(o, ["IncompatibleUnitsError"]))
     for lbl, mk in other_values():
         cr.run("R03.1", fi, f"__rsub__ {lbl}", qty_and_value("ref", mk), judge_notimpl, flag_kinds=())
+        cr.run("R03.1", fi, f"__rsub__ {lbl} [money]", qty_and_value("money", mk), judge_notimpl, flag_kinds=())
 
     # comparisons: error classes and "no value"
     for name in ("__lt__", "__le__", "__gt__", "__ge__"):
@@ -64,11 +68,16 @@ def run(prog, tier) -> Result:
         for lbl, mk in other_values() + [("Unit", lambda c: c.unit("uo", "T"))]:
             cr.run("R03.1", fi, f"{name} {lbl}", qty_and_value("ref", mk), judge_notimpl, flag_kinds=(),
                    site=f"Quantity.{name}")
+        for lbl, mk in other_values()[:2]:
+            cr.run("R03.1", fi, f"{name} {lbl} [money]", qty_and_value("money", mk), judge_notimpl, flag_kinds=(),
+                   site=f"Quantity.{name}")
     fi = Q("__eq__")
     for fl2 in (None, "money"):
         cr.run("R03.1", fi, f"__eq__ other type [{fl2 or 'any'}]", two_qty_other_type("ref", fl2), judge_false)
     for lbl, mk in other_values() + [("Unit", lambda c: c.unit("uo", "T"))]:
         cr.run("R03.1", fi, f"__eq__ {lbl}", qty_and_value("ref", mk), judge_false, flag_kinds=())
+    for lbl, mk in other_values()[:2]:
+        cr.run("R03.1", fi, f"__eq__ {lbl} [money]", qty_and_value("money", mk), judge_false, flag_kinds=())
 
     # unary operators
     for fl in ("ref", "ref+quantum", "money"):
